@@ -31,6 +31,7 @@ package main
 
 import (
 	"context"
+	"runtime"
 	"errors"
 	"fmt"
 	"sort"
@@ -136,6 +137,63 @@ func (e *eng) Op(f []string, line string, out *hx.Out) {
 		return
 	}
 	switch f[0] {
+	case "probe":
+		// probe concurrent: two goroutines Wait on ONE set at the same time (the set serialises them with its mutex:
+		// the second Wait starts when the first has returned). Whatever the interleaving, a returned channel must be a
+		// closed member and an open member must stay in the set. No virtual time is needed (and none may pass: a
+		// goroutine blocked on a mutex stalls the bubble's clock), the hand-offs are channel operations only.
+		// Implementation-only oracle (the model answers "probe ok"); S4-C20-2: Wait released the mutex while blocked
+		// and the two Waits shared the select-case buffer.
+		bad := ""
+		for round := 0; round < 12 && bad == ""; round++ {
+			ws := statedb.NewWatchSet()
+			chs := make([]chan struct{}, 16)
+			idx := map[<-chan struct{}]int{}
+			for i := range chs {
+				chs[i] = make(chan struct{})
+				idx[chs[i]] = i
+				ws.Add(chs[i])
+			}
+			type res struct {
+				r   []<-chan struct{}
+				err error
+			}
+			results := make(chan res, 2)
+			for w := 0; w < 2; w++ {
+				go func() {
+					r, err := ws.Wait(context.Background(), 0)
+					results <- res{r, err}
+				}()
+			}
+			for i := 0; i < 2000; i++ {
+				runtime.Gosched() // let both reach their blocking point (select / mutex)
+			}
+			closedNow := map[int]bool{}
+			for k := 0; k < 2; k++ {
+				c := (round*5 + k*7 + 3) % len(chs)
+				for closedNow[c] {
+					c = (c + 1) % len(chs)
+				}
+				closedNow[c] = true
+				close(chs[c])
+				got := <-results
+				if got.err != nil || len(got.r) == 0 {
+					bad = " !BAD:C20:concurrent-wait-returned-nothing"
+				}
+				for _, ch := range got.r {
+					if i, ok := idx[ch]; !ok || !closedNow[i] {
+						bad = " !BAD:C20:concurrent-wait-returned-an-open-channel"
+					}
+				}
+			}
+			// both Waits have returned (Has takes the set's mutex, which a Wait in progress holds)
+			for i, ch := range chs {
+				if !closedNow[i] && !ws.Has(ch) {
+					bad = " !BAD:C20:concurrent-wait-removed-an-open-member"
+				}
+			}
+		}
+		out.P("P:C20 probe ok%s", bad)
 	case "add":
 		ws := e.set(atoi(f[1]))
 		var cs []<-chan struct{}
@@ -676,6 +734,8 @@ func (g *gstate) add(s int, ids []int) {
 }
 
 func (*eng) Gen(r *hx.Rand, n int, tier string, prop string, out *hx.Out) {
+	out.P("#case probe-concurrent-waits")
+	out.P("probe concurrent")
 	for c := 0; c < n; c++ {
 		out.P("#case g%d", c)
 		g := &gstate{sets: map[int][]int{}, closed: map[int]bool{}}
